@@ -419,12 +419,19 @@ impl<CS: BbsCiphersuite> PoKSignature<BBSplus<CS>> {
         let api_id = CS::API_ID_BLIND;
 
         let U = proof.m_cap.len();
-        let M = disclosed_indexes.len() + disclosed_commitment_indexes.len() + U - 1 - L;
+        // M = R1 + R2 + U - 1 - L must not be negative: L is chosen by the caller
+        let total = disclosed_indexes.len() + disclosed_commitment_indexes.len() + U;
+        let M = total
+            .checked_sub(1)
+            .ok_or_else(|| Error::PoKSVerificationError("invalid number of signer messages".to_owned()))?
+            .checked_sub(L)
+            .ok_or_else(|| Error::PoKSVerificationError("invalid number of signer messages".to_owned()))?;
+        let shift = L + 1;
 
         let (message_scalars, generators) = prepare_parameters::<CS>(
             Some(disclosed_messages),
             Some(disclosed_committed_messages),
-            L + 1,
+            shift,
             M + 1, //TODO: Edit taken from Grotto bbs sig library
             None, 
             Some(api_id)
@@ -432,9 +439,10 @@ impl<CS: BbsCiphersuite> PoKSignature<BBSplus<CS>> {
 
         let indexes = disclosed_indexes
             .iter()
-            .copied()
-            .chain(disclosed_commitment_indexes.iter().map(|j| j + L + 1))
-            .collect::<Vec<_>>();
+            .map(|i| Some(*i))
+            .chain(disclosed_commitment_indexes.iter().map(|j| j.checked_add(shift)))
+            .collect::<Option<Vec<_>>>()
+            .ok_or_else(|| Error::PoKSVerificationError("Invalid disclosed indexes".to_owned()))?;
 
         core_proof_verify::<CS>(
             pk,
